@@ -968,6 +968,17 @@ func RunCheck(spec *CheckSpec) int {
 		}
 		// confirm in a fresh process
 		conf := Replay(spec.BinDir, g.first.Batch, spec.Tier, mg, ms, 60*time.Second)
+		if v.Rule == "RACE" {
+			// the race detector keeps a bounded access history: a report is never false but the same
+			// execution does not always produce it; give the replay a few more attempts, then fall back
+			// to the tape as found
+			for try := 0; try < 6 && (conf.Violation == nil || conf.Violation.Signature != sig); try++ {
+				if try == 3 {
+					mg, ms = gen, sch
+				}
+				conf = Replay(spec.BinDir, g.first.Batch, spec.Tier, mg, ms, 60*time.Second)
+			}
+		}
 		if conf.Violation == nil || conf.Violation.Signature != sig {
 			fmt.Printf("NOTE: minimised violation %q did not reproduce in a fresh process (got %v); not reported\n", sig, sigOf(conf))
 			res.HangsUnc++
